@@ -25,6 +25,9 @@ Environment: every shell call needs `export GOFLAGS=-mod=mod GOPROXY=off` (and d
 
 Deliver, in the directory {wt}-out/ (create it), one sub-directory per change named <PropertyId>-<k> (e.g. {pids[0]}-1) containing: `patch.diff` (output of `git -C {wt} diff` for that change alone, applying cleanly to HEAD with `git apply`; do not include the demo in the patch), `demo/` (the demonstration file(s) and a `run.sh` that exits non-zero when the property is violated; it receives the path of a murex source tree as $1 and must build/run against it — for a Go test demo, run.sh copies the test file into the right package directory of $1, runs `go test -run <Name>` there and removes it again), `notes.md` (what was changed, why it breaks the property, exactly what is needed for it to manifest, and the output of the demonstration with and without the change). Reset the worktree to HEAD between changes (`git -C {wt} checkout -- . && git -C {wt} clean -fd`) and at the end. Remove /tmp/murex-seed-{name} at the end. Your final message: for each change a 3-line summary (file/function changed, trigger, demo result with/without, full-suite result).
 """
+hint=os.environ.get("SEED_HINT","")
+if hint:
+    out=out.replace("For each change also write a demonstration", "Kind of change wanted this time: "+hint+"\n\nFor each change also write a demonstration",1)
 pf=f"/tmp/seedprompt-{name}.md"
 open(pf,"w").write(out)
 print(pf)
